@@ -480,6 +480,46 @@ for z, sym in num2sym.items():
 """
 
 
+def oracle_at(ctx: Ctx, failure):
+    """Evaluate the property at an input on which model and implementation disagreed."""
+    w = failure.witness or {}
+    if not (isinstance(w, dict) and {"r", "alpha", "normalized"} <= set(w)) or not failure.key.startswith("coulomb_gaussian_"):
+        return
+    kind = failure.key.split("_")[2][:1]
+    if kind not in ("s", "p"):
+        return
+    cb = importlib.import_module("grid.coulomb")
+    mp = _mp()
+    r, a, nz = float(w["r"]), float(w["alpha"]), bool(w["normalized"])
+    fn = {"s": cb.coulomb_gaussian_s, "p": cb.coulomb_gaussian_p}[kind]
+    with np.errstate(all="ignore"):
+        got = float(fn(r, a, normalized=nz)[0])
+    if kind == "s":
+        ref = _ref_potential("s", a, r, nz)
+        if abs(got - ref) > 1e-10 * abs(ref):
+            ctx.fail("oracle", "coulomb.coulomb_gaussian_s",
+                     f"coulomb_gaussian_s(r={r!r}, alpha={a!r}, normalized={nz}) = {got!r}, but the Coulomb potential of the documented density is {mp.nstr(ref, 17)}",
+                     witness={"r": r, "alpha": a, "normalized": nz, "got": got, "reference": mp.nstr(ref, 20)},
+                     snippet=SNIPPET_POT.format(kind="s", alpha=a, r=r, normalized=nz))
+    else:
+        # the p-type function is a listed finding (wrong constants); a deviation from the formula its
+        # own docstring states is a different defect and is reported under its own key
+        A, R = mp.mpf(a), mp.mpf(r)
+        doc = (mp.erf(mp.sqrt(A) * R) / R if r > 0 else 2 * mp.sqrt(A / mp.pi)) + mp.mpf(4) / 3 * mp.sqrt(A / mp.pi) * mp.exp(-A * R * R)
+        if not nz:
+            doc *= mp.mpf(3) / 2 * mp.pi ** mp.mpf("1.5") / A ** mp.mpf("2.5")
+        if abs(got - doc) > 1e-10 * abs(doc):
+            ctx.fail("oracle", "coulomb.coulomb_gaussian_p:vs-documented-formula",
+                     f"coulomb_gaussian_p(r={r!r}, alpha={a!r}, normalized={nz}) = {got!r} deviates from the formula stated in its own docstring, {mp.nstr(doc, 17)} "
+                     "(beyond the listed finding about that formula's constants)",
+                     witness={"r": r, "alpha": a, "normalized": nz, "got": got, "documented_formula": mp.nstr(doc, 20)},
+                     snippet=("import mpmath as mp, numpy as np\nfrom grid.coulomb import coulomb_gaussian_p as f\nmp.mp.dps = 40\n"
+                              f"a, r, nz = {a!r}, {r!r}, {nz}\nA, R = mp.mpf(a), mp.mpf(r)\n"
+                              "doc = (mp.erf(mp.sqrt(A)*R)/R if r > 0 else 2*mp.sqrt(A/mp.pi)) + mp.mpf(4)/3*mp.sqrt(A/mp.pi)*mp.exp(-A*R*R)\n"
+                              "doc = doc if nz else doc*mp.mpf(3)/2*mp.pi**mp.mpf('1.5')/A**mp.mpf('2.5')\n"
+                              "got = float(f(r, a, normalized=nz)[0])\nassert abs(got - doc) <= 1e-10*abs(doc), (got, doc)\n"))
+
+
 def oracle(ctx: Ctx, budget: str):
     cb = importlib.import_module("grid.coulomb")
     utils = importlib.import_module("grid.utils")
@@ -498,6 +538,10 @@ def oracle(ctx: Ctx, budget: str):
     for _ in range(60 if large else 8):
         a = 10.0 ** ctx.rng.uniform(-6, 6)
         samples.append((a, 10.0 ** ctx.rng.uniform(-2.5, 1.2) / math.sqrt(a)))
+    # tight and diffuse Gaussians at radii from just above the switch up to the bulk
+    for _ in range(120 if large else 16):
+        a = 10.0 ** ctx.rng.uniform(-10, 14)
+        samples.append((a, 10.0 ** ctx.rng.uniform(math.log10(thr), math.log10(thr) + 8)))
     for kind in ("s", "p"):
         nfail = 0
         for a, r in samples:
